@@ -8,6 +8,7 @@ pack that holds the blob, and every snapshot's closure is indexed (so every visi
 Helper lemmas: `Rustic/Lemmas/Repo.lean`.
 -/
 import Rustic.Lemmas.Repo
+import Rustic.Lemmas.PackerActor
 namespace Rustic.Props.C03
 open Rustic.Repo
 
@@ -240,7 +241,7 @@ theorem index_before_pack_unsafe :
 
 /-! ### (4) a failed operation stops the (sequential) protocol: the state is a prefix state and the run reports failure -/
 
-theorem failed_op_reports_error : ∀ (ops : List Op) (r : Repo) (k : Nat), k < ops.length →
+theorem failed_op_stops_sequential_protocol : ∀ (ops : List Op) (r : Repo) (k : Nat), k < ops.length →
     (runWithFault r k ops).2 = false ∧ (runWithFault r k ops).1 ∈ prefixStates r ops
   | [], _, _, h => by simp at h
   | o :: ops, r, k, h => by
@@ -248,7 +249,108 @@ theorem failed_op_reports_error : ∀ (ops : List Op) (r : Repo) (k : Nat), k < 
     by_cases hk : k = 0
     · simp [hk, prefixStates]
     · simp only [hk, if_false, prefixStates, List.mem_cons]
-      have := failed_op_reports_error ops (apply r o) (k - 1) (by simp at h; omega)
+      have := failed_op_stops_sequential_protocol ops (apply r o) (k - 1) (by simp at h; omega)
       exact ⟨this.1, Or.inr this.2⟩
+
+/-! ### (5) the packer / file-writer / indexer actor model (`Model/PackerActor.lean`), every schedule
+
+The model has any number `n` of writer actors (raw packer → `Actor::send` → `process` = pack write → `indexer.add`, which
+saves an index file on its own once it holds `maxCount` blobs or is too old → `finalize` collects the writers' statuses,
+saves the remaining index and the snapshot).  A schedule is a list of events; it chooses the interleaving of all
+stages of all actors (incl. the read-ahead between `process` and `index`), the pack contents, and which storage
+operations fail.  The statements hold for **every** schedule, every `maxCount`, every number of writers. -/
+open Rustic.PackerActor in
+/-- **An index file only ever lists packs whose write has completed**: whatever the schedule and whichever operations
+fail, in every reachable state every pack listed by a stored index file (auto-saved mid-run or saved by `finalize`) is a
+stored pack file with exactly the listed blobs. -/
+theorem index_lists_only_written_packs (maxCount n : Nat) (r : Repo) (evs : List Ev) (h : listedWritten r = true) :
+    listedWritten (run maxCount (init r n) evs).repo = true := by
+  rw [listedWritten_iff] at h ⊢
+  exact (sound_run maxCount evs _ (sound_init r n h)).idx
+
+open Rustic.PackerActor in
+/-- … so the index is sound (`indexSound`, the first half of `consistent`) at every point of every schedule — every crash
+point of the concurrent pipeline, and every state a failed run leaves behind. -/
+theorem index_sound_at_every_schedule_point (maxCount n : Nat) (r : Repo) (evs : List Ev) (h : listedWritten r = true) :
+    indexSound (run maxCount (init r n) evs).repo = true :=
+  ((listedWritten_iff _).mp (index_lists_only_written_packs maxCount n r evs h)).indexSound
+
+open Rustic.PackerActor in
+/-- what the indexer still holds (its unsaved index file) lists only written packs as well. -/
+theorem indexer_holds_only_written_packs (maxCount n : Nat) (r : Repo) (evs : List Ev) (h : listedWritten r = true) :
+    ∀ p ∈ (run maxCount (init r n) evs).file, ∃ q ∈ (run maxCount (init r n) evs).repo.packs, q.id = p.id ∧ q.blobs = p.blobs :=
+  (sound_run maxCount evs _ (sound_init r n ((listedWritten_iff _).mp h))).file
+
+open Rustic.PackerActor in
+/-- **A failed storage operation is reported**: for every schedule, if the command returned `Ok` (and so saved its snapshot)
+no storage operation failed — a failed pack write in any writer, a failed auto-save of the index inside `indexer.add`, a
+failed final index or snapshot write all reach `finalize` and the command result, however the stages were interleaved;
+conversely the command only fails when an operation failed. -/
+theorem failed_op_reports_error (maxCount n : Nat) (r : Repo) (evs : List Ev) :
+    ((run maxCount (init r n) evs).result = some true → (run maxCount (init r n) evs).faults = 0) ∧
+    ((run maxCount (init r n) evs).result = some false → 0 < (run maxCount (init r n) evs).faults) := by
+  have h := report_run maxCount evs _ (report_init r n)
+  constructor
+  · intro hr
+    by_cases hf : 0 < (run maxCount (init r n) evs).faults
+    · rcases h.vis hf with hb | hb
+      · exact absurd hb (not_bad_of_quiet (h.okq hr))
+      · rw [hr] at hb; simp at hb
+    · omega
+  · intro hr
+    exact h.rev (Or.inr hr)
+
+open Rustic.PackerActor in
+/-- once the command has returned `Ok` nothing is in flight any more: no later step of the schedule changes the state. -/
+theorem ok_result_is_final (maxCount n : Nat) (r : Repo) (evs : List Ev) (e : Ev)
+    (hr : (run maxCount (init r n) evs).result = some true) :
+    step maxCount (run maxCount (init r n) evs) e = run maxCount (init r n) evs :=
+  step_noop maxCount _ e hr ((report_run maxCount evs _ (report_init r n)).okq hr)
+
+open Rustic.PackerActor in
+/-- **Every crash point of the concurrent pipeline is consistent.**  `Covered` is the archiver's obligation, stated per
+`finish` event of the schedule: the snapshot's closure consists of blobs indexed before the run or held by packs handed to
+a writer before (in the state the event meets).  Then for every schedule — every interleaving of packers, writer stages
+(with read-ahead), auto-saves and the command tail, every choice of failing operations — the repository is `consistent`
+in every reachable state: the index is sound and every visible snapshot, old or new, is completely readable.  (A snapshot
+is only written after every sent pack was written and listed: `Track`.) -/
+theorem actor_every_schedule_point_consistent (maxCount n : Nat) (r : Repo) (evs : List Ev) (hc : consistent r = true)
+    (hl : listedWritten r = true) (hcov : Covered maxCount r (init r n) evs) :
+    consistent (run maxCount (init r n) evs).repo = true := by
+  rw [consistent_iff] at hc ⊢
+  have hS := sound_init r n ((listedWritten_iff r).mp hl)
+  exact ⟨index_sound_at_every_schedule_point maxCount n r evs hl,
+    (track_run maxCount r evs _ hS (track_init r n hc.2) hcov).snaps⟩
+
+namespace ActorWitness
+open Rustic.PackerActor
+def p1 : Pack := { id := 1, blobs := [(.data, 1), (.data, 2)] }
+def p2 : Pack := { id := 2, blobs := [(.data, 3), (.data, 4)] }
+def p3 : Pack := { id := 3, blobs := [(.tree, 5)] }
+def snap : Snap := { id := 9, needs := [(.data, 1), (.data, 2), (.data, 3), (.data, 4), (.tree, 5)] }
+/-- auto-save threshold 4 blobs: the index file listing packs 1 and 2 is written while pack 3 is still queued. -/
+def good : List Ev := [.send 0 p1, .send 0 p2, .write 0 true, .send 1 p3, .write 0 true, .index 0 false true, .index 0 false true,
+  .write 1 true, .index 1 false true, .finish snap true true]
+/-- the write of pack 2 fails; read-ahead lets pack 3 be written and indexed all the same. -/
+def faulty : List Ev := [.send 0 p1, .send 0 p2, .write 0 true, .send 1 p3, .write 0 false, .index 0 false true,
+  .write 1 true, .index 1 false true, .index 0 false true, .finish snap true true]
+end ActorWitness
+
+open Rustic.PackerActor ActorWitness in
+/-- non-vacuity: a schedule with an index file auto-saved mid-run ends `Ok` with a consistent repository … -/
+example : (run 4 (init {} 2) good).result = some true ∧ (run 4 (init {} 2) good).repo.indexes.length = 2 ∧
+    consistent (run 4 (init {} 2) good).repo = true ∧
+    (run 4 (init {} 2) (good.take 7)).repo.indexes.length = 1 ∧ hasPack (run 4 (init {} 2) (good.take 7)).repo 3 = false := by decide
+
+open Rustic.PackerActor ActorWitness in
+/-- the witness schedules satisfy the hypothesis `Covered` of `actor_every_schedule_point_consistent`. -/
+example : Covered 4 {} (init {} 2) good ∧ Covered 4 {} (init {} 2) faulty := by
+  simp [Covered, evCovered, good, faulty, step, init, setWr, addToIndexer, snap, p1, p2, p3, idxPackOf, anyDead, allDrained,
+    Wr.drained, apply]
+
+open Rustic.PackerActor ActorWitness in
+/-- … and with a failed pack write the command fails, no snapshot is written, the stored state is consistent. -/
+example : (run 4 (init {} 2) faulty).result = some false ∧ (run 4 (init {} 2) faulty).faults = 1 ∧
+    (run 4 (init {} 2) faulty).repo.snaps = [] ∧ consistent (run 4 (init {} 2) faulty).repo = true := by decide
 
 end Rustic.Props.C03
